@@ -2,7 +2,7 @@
    ExtrOcamlBasic only: Z, positive, N, nat stay the extracted inductives. *)
 From Coq Require Import Extraction ExtrOcamlBasic ZArith List.
 From Pico Require Import Base.Res Base.Mach Wire.Wire Small.Bitset Small.FieldNumStr
-  Schema.Types Schema.Scalar Schema.Gen Enc.Enc Dec.Dec Schema.Conv Schema.Interp Schema.Norm Ref.Ref.
+  Schema.Types Schema.Scalar Schema.Gen Enc.Enc Dec.Dec Schema.Conv Schema.Interp Schema.Norm Ref.Ref Schema.EncSpec.
 Import ListNotations.
 Extraction Language OCaml.
 
@@ -20,6 +20,10 @@ Definition mx_marshal (progs : list prog) (idx : nat) (v : val) : result bytes :
 
 Definition mx_unmarshal (progs : list prog) (idx : nat) (data : bytes) (m0 : val) :=
   let '(e, m) := pico_unmarshal progs idx data (msgv_of m0) in (e, VMsg (Some m)).
+
+(* the well-typedness premise of T_enc, evaluated on every generated value *)
+Definition mx_msg_ok (progs : list prog) (idx : nat) (v : val) : bool :=
+  msg_ok (S (S (val_depth 100000 v))) progs idx (Some (msgv_of v)).
 
 Definition mx_zero (progs : list prog) (idx : nat) : val :=
   match nth_error progs idx with Some p => VMsg (Some (p_zero p, [])) | None => VMsg None end.
@@ -61,7 +65,7 @@ Extraction "model.ml"
   mx_writer mx_reader mx_dur_join mx_dur_split mx_time_unix mx_enc_duration mx_enc_timestamp
   Z.add Z.mul Z.sub Z.opp Z.of_nat Z.to_nat Z.div_eucl Z.eqb Z.ltb Z.compare
   mx_bitset_run mx_fn_string
-  mx_gen_all mx_marshal mx_unmarshal mx_zero mx_norm mx_ref_encode mx_ref_decode mx_wf_input
+  mx_gen_all mx_msg_ok mx_marshal mx_unmarshal mx_zero mx_norm mx_ref_encode mx_ref_decode mx_wf_input
   consume_varint append_varint consume_field_value consume_tag consume_bytes consume_fixed32 consume_fixed64
   append_tag pw_append_tag size_varint enc_single enc_repeated dec_single dec_repeated
   dur_split dur_join time_unix.
